@@ -31,6 +31,7 @@ func drivers(quick bool) []conc.Driver {
 		{Chunk: 1, Concurrent: true, Cycles: []int{2}, Faults: true},
 		{Chunk: 2, Concurrent: true, Cycles: []int{3}, Faults: true},
 		{Chunk: 2, Concurrent: false, Cycles: []int{3}, Faults: true, After: 16}, // another, larger sorter lived before
+		{Chunk: 2, Concurrent: false, Cycles: []int{5}, Faults: true, Hit: true}, // the library's own element type, negative and large diagonals
 	}
 	if !quick {
 		scs = append(scs,
